@@ -19,6 +19,51 @@ POSITIVE: list[tuple[str, str, str]] = [
 ]
 
 
+def _order_source(e: ast.expr, leaf, same_elements: bool = False):
+    """What fixes the order in which `e` is traversed: the wrappers that keep the order of what they wrap (list(x), tuple(x),
+    [*x], dict(x), x.keys() / x.items() / x.copy(), a comprehension with one `for` and no `if`) are removed and `leaf`
+    classifies what is left (returns None when it does not know it).  same_elements: the wrappers must also deliver the
+    very elements (keys) of what they wrap: no .items(), a comprehension yields its own variable."""
+    while True:
+        if same_elements and isinstance(e, ast.Call) and isinstance(e.func, ast.Attribute) and e.func.attr == 'items':
+            return None
+        if same_elements and isinstance(e, (ast.ListComp, ast.GeneratorExp)) and not (
+                len(e.generators) == 1 and isinstance(e.generators[0].target, ast.Name) and isinstance(e.elt, ast.Name) and e.elt.id == e.generators[0].target.id):
+            return None
+        if isinstance(e, ast.Call) and not e.keywords and len(e.args) == 1 and isinstance(e.func, ast.Name) and e.func.id in ('list', 'tuple', 'dict', 'iter'):
+            e = e.args[0]
+        elif isinstance(e, ast.Call) and not e.keywords and not e.args and isinstance(e.func, ast.Attribute) and e.func.attr in ('keys', 'items', 'copy'):
+            e = e.func.value
+        elif isinstance(e, (ast.List, ast.Tuple)) and len(e.elts) == 1 and isinstance(e.elts[0], ast.Starred):
+            e = e.elts[0].value
+        elif isinstance(e, (ast.ListComp, ast.GeneratorExp)) and len(e.generators) == 1 and not e.generators[0].ifs and not e.generators[0].is_async:
+            e = e.generators[0].iter
+        else:
+            return leaf(e)
+
+
+def _order_of_names(e: ast.expr):
+    """('names' | 'sorted' | 'dict', <text of the IdManager>) for the list of names handed to generate_draws: X.draws.names,
+    sorted(<the keys of X.draw_types() or of X.draws.expressions>), or those keys in the order of the dictionary; None otherwise."""
+
+    def leaf(x):
+        t = unparse(x)
+        m = re.fullmatch(r'(.*)\.draws\.names', t)
+        if m:
+            return 'names', m.group(1)
+        m = re.fullmatch(r'(.*)\.draw_types\(\)', t) or re.fullmatch(r'(.*)\.draws\.expressions', t)
+        if m:
+            return 'dict', m.group(1)
+        return None
+
+    if isinstance(e, ast.Call) and isinstance(e.func, ast.Name) and e.func.id == 'sorted' and len(e.args) == 1 and not e.keywords:
+        src = _order_source(e.args[0], leaf, True)
+        return ('sorted', src[1]) if src else None
+    if isinstance(e, ast.Call) and isinstance(e.func, ast.Name) and e.func.id == 'sorted':
+        return None
+    return _order_source(e, leaf, True)
+
+
 def run(ctx: Ctx) -> None:
     ctx.positive_table = list(POSITIVE)
     prog = ctx.prog
@@ -29,17 +74,34 @@ def run(ctx: Ctx) -> None:
     ctx.rule('C10.R3', 'reserved names: set_random_number_generators refuses every native key before the user generators are stored')
     ctx.rule('C10.R4', 'records of MonteCarlo, Integrate, Derive and bioDraws carry the child / the kind index of the named variable / the unique index of the named element (C01.R3) and the draws reach the engine in the draws slot')
     ctx.not_decided += ['the mean over draws, quadrature accuracy, the derivative operator (engine)']
+    D = prog.cls('database', 'Database')
+    gd = D.methods['generate_draws']
+    ps = gd.positional_params()
+    types_p, names_p, n_p = ps[1], ps[2], ps[3]
     callers = [(f, c) for f, c in prog.callers_of('generate_draws') if f.decorator_call('deprecated') is None]
     n = 0
     for f, c in callers:
-        args = [unparse(a) for a in c.args]
         n += 1
-        m = re.fullmatch(r'(.*)\.draw_types\(\)', args[0]) if args else None
-        ok = m is not None and len(args) == 3 and args[1] == f'{m.group(1)}.draws.names'
-        # names derived from the dictionary of types follow the order of appearance in the formulas, not the order that defines drawId
-        inl = [unparse(inline_locals(f.node, a)) for a in c.args]
-        from_dict = len(inl) >= 2 and not ok and ('draw_types' in inl[1] or re.search(r'\.expressions\b', inl[1]) is not None)
-        ctx.add('C10.R1', f'{f.qualname}:generate_draws', ok if (ok or from_dict) else None, (f.file, c.lineno),
+        # the arguments by parameter, written positionally or with keywords
+        byname = dict(zip((types_p, names_p, n_p), [a for a in c.args if not isinstance(a, ast.Starred)]))
+        for k in c.keywords:
+            if k.arg:
+                byname.setdefault(k.arg, k.value)
+        plain = len(c.args) + len(c.keywords) == 3 and set(byname) == {types_p, names_p, n_p}
+        args = [unparse(a) for a in c.args] + [f'{k.arg}={unparse(k.value)}' for k in c.keywords]
+        ok = None
+        from_dict = False
+        if plain:
+            t_ = inline_locals(f.node, byname[types_p])
+            m = re.fullmatch(r'(.*)\.draw_types\(\)', unparse(t_))
+            order = _order_of_names(inline_locals(f.node, byname[names_p]))
+            # draws.names is sorted(draws.expressions), and draw_types() has the keys of draws.expressions: sorted(<either>) is draws.names
+            if m is not None and order is not None and order[0] in ('names', 'sorted') and order[1] == m.group(1):
+                ok = True
+            elif order is not None and order[0] == 'dict':
+                # names in the order of a dictionary follow the order of appearance in the formulas, not the order that defines drawId
+                ok, from_dict = False, True
+        ctx.add('C10.R1', f'{f.qualname}:generate_draws', ok, (f.file, c.lineno),
                 f'generate_draws({", ".join(args)})' + ('' if ok else (': the names come from a dictionary (order of appearance in the formulas); column i of the table must belong to draws.names[i], the sorted order that defines drawId'
                                                                          if from_dict else ': the arguments are not in the expected form (draw_types(), draws.names, n)')), str(args), positive=from_dict)
     ctx.need(n >= 2, 'at least two callers of generate_draws')
@@ -51,12 +113,17 @@ def run(ctx: Ctx) -> None:
         for i_ in walk_no_nested(prep_.node):
             if isinstance(i_, ast.If) and any(x is c for st_ in i_.body for x in ast.walk(st_)):
                 guards += [unparse(v) for v in (i_.test.values if isinstance(i_.test, ast.BoolOp) and isinstance(i_.test.op, ast.And) else [i_.test])]
-        extra = [g_ for g_ in guards if g_ not in ('self.requires_draws', 'self.database is not None', 'database is not None')]
+        # "there is a database", however it is spelt
+        present = {f'{d_} is not None' for d_ in ('self.database', 'database')} | {f'None is not {d_}' for d_ in ('self.database', 'database')} | \
+            {f'not {d_} is None' for d_ in ('self.database', 'database')} | {f'{d_} != None' for d_ in ('self.database', 'database')} | {'self.database', 'database'}
+        extra = [g_ for g_ in guards if g_ != 'self.requires_draws' and g_ not in present]
+        # a further condition that consults the database (a table it already holds) makes the generation depend on what another formula left there
+        reuse = [g_ for g_ in extra if re.search(r'\b(self\.)?database\.\w+', g_)]
         okg = 'self.requires_draws' in guards and not extra
-        ctx.add('C10.R1', 'IdManager.prepare:regenerates', okg if (okg or ('self.requires_draws' in guards and extra)) else None, (prep_.file, c.lineno),
+        ctx.add('C10.R1', 'IdManager.prepare:regenerates', okg if (okg or ('self.requires_draws' in guards and reuse)) else None, (prep_.file, c.lineno),
                 'the draws are generated every time the ids of a formula with draws are prepared' if okg else
-                (f'the draws are generated only when `{" and ".join(extra)}` also holds: a table left by another formula (other variables, other types) is reused, so a variable is averaged over a series that is not its own' if extra
-                 else 'the condition under which the draws are generated is not in the expected form'), 'regenerate', positive=bool(extra))
+                (f'the draws are generated only when `{" and ".join(reuse)}` also holds: a table left by another formula (other variables, other types) is reused, so a variable is averaged over a series that is not its own' if reuse
+                 else 'the condition under which the draws are generated is not in the expected form' + (f' ({" and ".join(extra)})' if extra else '')), 'regenerate', positive=bool(reuse))
     idm = prog.cls('expressions.idmanager', 'IdManager')
     dt = idm.methods['draw_types']
     rets = [x for x in walk_no_nested(dt.node) if isinstance(x, ast.Return)]
@@ -78,10 +145,6 @@ def run(ctx: Ctx) -> None:
     dd = E.methods['dict_of_draw_types']
     ok = body_is(dd.body, '_D = self.dict_of_elementary_expression(TypeOfElementaryExpression.DRAWS)\nreturn {_N: _E.drawType for _N, _E in _D.items()}') is not None
     ctx.add('C10.R1', 'Expression.dict_of_draw_types', ok, dd, 'name -> drawType of the same expression' if ok else 'dict_of_draw_types changed', 'ddt')
-    D = prog.cls('database', 'Database')
-    gd = D.methods['generate_draws']
-    ps = gd.positional_params()
-    types_p, names_p, n_p = ps[1], ps[2], ps[3]
     GEN = f"""
 _L = [None] * len(__LEN)
 for _I, _V in enumerate(__SEQ):
@@ -117,21 +180,54 @@ return self.theDraws
     bg = None
     for gen in (GEN, GEN2):
         bg = bg or _find(gd.node, gen.replace('NAMEDEF', '_NAME = _V')) or _find(gd.node, gen.replace('    NAMEDEF\n', '').replace('_NAME', '_V'))
+    if bg is None:
+        # the pairs (name, declared type of that name) prepared beforehand: for i, (name, type) in enumerate((n, types[n]) for n in names)
+        for gen in (GEN, GEN2):
+            gen_ = gen.replace('for _I, _V in enumerate(__SEQ):', 'for _I, (_NAME, _T) in enumerate(__SEQ):').replace('    NAMEDEF\n', '').replace(f'    _T = {types_p}[_NAME]\n', '')
+            assert 'NAMEDEF' not in gen_ and f'{types_p}[' not in gen_ and '(_NAME, _T)' in gen_, gen_
+            b2 = _find(gd.node, gen_)
+            if b2 is None:
+                continue
+            pairs = inline_locals(gd.node, b2['__SEQ'][1])
+            if isinstance(pairs, ast.Call) and isinstance(pairs.func, ast.Name) and pairs.func.id in ('list', 'tuple', 'iter') and len(pairs.args) == 1 and not pairs.keywords:
+                pairs = pairs.args[0]
+            if isinstance(pairs, (ast.ListComp, ast.GeneratorExp)) and len(pairs.generators) == 1 and not pairs.generators[0].ifs and isinstance(pairs.generators[0].target, ast.Name) \
+                    and unparse(pairs.elt) == f'({pairs.generators[0].target.id}, {types_p}[{pairs.generators[0].target.id}])':
+                # same obligations on the sequence the names are taken from
+                bg = dict(b2)
+                bg['__SEQ'] = (b2['__SEQ'][0], pairs.generators[0].iter)
+                break
     ok = None
     why = 'shape not recognised - expected: one column per name of `names`, filled by the generator of the declared type of that name (native, else user, else error), variable axis moved last'
+
+    def leaf_(x):
+        # what the loop runs over, once the order-preserving wrappers are removed: the list of names or the dictionary of types
+        return 'names' if isinstance(x, ast.Name) and x.id == names_p else 'dict' if isinstance(x, ast.Name) and x.id == types_p else None
+
     if bg is not None:
-        seqv, lenv = unparse(bg['__SEQ'][1]), unparse(bg['__LEN'][1])
-        ok = seqv == names_p and lenv == names_p
-        if not ok:
+        seq_, len_ = inline_locals(gd.node, bg['__SEQ'][1]), inline_locals(gd.node, bg['__LEN'][1])
+        seqv, lenv = unparse(seq_), unparse(len_)
+        o_seq, o_len = _order_source(seq_, leaf_, True), _order_source(len_, leaf_)
+        if o_seq == 'names' and o_len == 'names':
+            ok = True
+        elif o_seq == 'dict':
+            ok = False
             why = f'the columns of the draw table are laid out over {seqv} (length {lenv}): column i must belong to {names_p}[i], the sorted names by which the expressions address their series'
+        else:
+            why = f'shape not recognised - expected: the columns of the draw table laid out over {names_p} (found {seqv}, length {lenv})'
     if bg is None:
         # which sequence numbers the slots of the list that becomes the table?
         for lp_ in [x for x in walk_no_nested(gd.node) if isinstance(x, ast.For) and isinstance(x.iter, ast.Call) and call_name(x.iter) == 'enumerate' and x.iter.args]:
-            src_ = unparse(inline_locals(gd.node, x_)) if (x_ := lp_.iter.args[0]) is not None else ''
+            src_n = inline_locals(gd.node, lp_.iter.args[0])
+            src_ = unparse(src_n)
             fills = any(isinstance(a_, ast.Assign) and isinstance(a_.targets[0], ast.Subscript) and isinstance(lp_.target, ast.Tuple) and unparse(a_.targets[0].slice) == unparse(lp_.target.elts[0]) for a_ in ast.walk(lp_))
-            if fills and src_ != names_p and (types_p in src_):
+            # the text of the source may well mention the dictionary of types (to look the type of each name up): what counts is what it runs over
+            if fills and _order_source(src_n, leaf_) == 'dict':
                 ok = False
                 why = f'slot i of the table is filled for the i-th entry of {src_} (the order of the dictionary of types, i.e. of appearance in the formulas): column i must belong to {names_p}[i], the sorted names by which the expressions address their series'
+    if ok is False and any(isinstance(x, ast.Name) and isinstance(x.ctx, ast.Store) and x.id in (types_p, names_p) for x in ast.walk(gd.node)):
+        ok = None  # a parameter is rebound inside: its order there is not the one it arrived with
+        why = 'shape not recognised - ' + why
     ctx.add('C10.R1', 'Database.generate_draws:columns', ok, gd, 'column i holds the series of the i-th name, generated with the generator of that name\'s declared type (native, else user, else error); the variable axis is moved last' if ok else why, 'columns', positive=ok is False)
     from .c01 import leaf_tables
 
@@ -151,25 +247,40 @@ return self.theDraws
     ok = len(seedif) == 1 and len(sd) == 1 and unparse(sd[0].value) == "self.biogeme_parameters.get_value(name='seed')" and len(users) >= 3 and all(cfg.dominates(cfg.node_of(seedif[0]), cfg.node_of(u)) for u in users)
     ctx.add('C10.R2', 'BIOGEME.__init__:seed', ok, init, 'the generator is seeded (when seed != 0) before any draw is generated' if ok else 'np.random.seed no longer precedes the generation of draws', 'seed')
     # every source of randomness of the draw generators is the global numpy stream that np.random.seed controls
-    LEGACY = {'uniform', 'random', 'random_sample', 'rand', 'randn', 'randint', 'normal', 'standard_normal', 'shuffle', 'permutation', 'choice', 'seed', 'exponential', 'lognormal', 'gumbel', 'logistic', 'beta', 'gamma', 'triangular'}
-    OTHER = {'default_rng', 'RandomState', 'Generator', 'SeedSequence', 'PCG64', 'MT19937', 'Philox', 'SFC64', 'urandom', 'SystemRandom', 'token_bytes', 'randbits', 'getrandbits'}
+    # the module-level functions of numpy.random: all of them draw from the one global RandomState that np.random.seed sets
+    LEGACY = {'beta', 'binomial', 'bytes', 'chisquare', 'choice', 'dirichlet', 'exponential', 'f', 'gamma', 'geometric', 'gumbel', 'hypergeometric', 'laplace', 'logistic', 'lognormal',
+              'logseries', 'multinomial', 'multivariate_normal', 'negative_binomial', 'noncentral_chisquare', 'noncentral_f', 'normal', 'pareto', 'permutation', 'poisson', 'power',
+              'rand', 'randint', 'randn', 'random', 'random_integers', 'random_sample', 'ranf', 'rayleigh', 'sample', 'seed', 'shuffle', 'standard_cauchy', 'standard_exponential',
+              'standard_gamma', 'standard_normal', 'standard_t', 'triangular', 'uniform', 'vonmises', 'wald', 'weibull', 'zipf'}
+    # generators of their own, which np.random.seed does not reach
+    NP_OWN = {'default_rng', 'RandomState', 'Generator', 'SeedSequence', 'PCG64', 'PCG64DXSM', 'MT19937', 'Philox', 'SFC64'}
+    NP = ('np.random.', 'numpy.random.')
     n_sources = 0
     for modname in ('draws', 'native_draws', 'database'):
         m = prog.module(modname)
-        std_random = any(isinstance(n, ast.Import) and any(a.name == 'random' for a in n.names) for n in ast.walk(m.tree))
+        std_random = any(isinstance(n, ast.Import) and any(a.name == 'random' and a.asname is None for a in n.names) for n in ast.walk(m.tree))
+        # bare names imported from a module: name -> (module, original name)
+        imported = {(a.asname or a.name): (n.module, a.name) for n in ast.walk(m.tree) if isinstance(n, ast.ImportFrom) and n.module and n.level == 0 for a in n.names}
         for fn in m.all_functions:
             for c in walk_no_nested(fn.node):
                 if not isinstance(c, ast.Call):
                     continue
                 d = unparse(c.func)
                 last = d.rsplit('.', 1)[-1]
-                if d.startswith(('np.random.', 'numpy.random.')) and last in LEGACY:
+                if isinstance(c.func, ast.Name) and d in imported:
+                    mod_, last = imported[d]
+                    full = f'{mod_}.{last}'
+                else:
+                    full = d
+                if full.startswith(NP) and full.count('.') == 2 and last in LEGACY:
                     n_sources += 1
                     continue
-                fresh = last in OTHER or (d.startswith(('np.random.', 'numpy.random.')) and last not in LEGACY) or (std_random and d.startswith('random.')) or d.startswith('secrets.')
+                fresh = (full.startswith(NP) and last in NP_OWN) or (full.startswith('random.') and (std_random or full != d)) or full.startswith('secrets.') or full == 'os.urandom'
                 if fresh:
                     ctx.add('C10.R2', f'{modname}.{fn.qualname}:{d}', False, (fn.file, c.lineno),
                             f'{d}(...) draws from a generator that np.random.seed does not control: with a non-zero seed the draws of {fn.qualname} differ from one run to the next', d, positive=True)
+                elif full.startswith(NP) and full.count('.') == 2:
+                    ctx.add('C10.R2', f'{modname}.{fn.qualname}:{d}', None, (fn.file, c.lineno), f'shape not recognised - expected: a function of numpy.random known to use the global stream or known not to ({d})', d)
     ctx.add('C10.R2', 'draw generators:sources', n_sources >= 5, D, f'{n_sources} calls on the global numpy stream (the one BIOGEME seeds) and no other source of randomness in draws / native_draws / database'
             if n_sources >= 5 else f'only {n_sources} calls on the global numpy stream found in draws / native_draws / database: sources of randomness not recognised', 'sources')
     srg = D.methods['set_random_number_generators']
